@@ -116,14 +116,19 @@ CLAIMED = {
             "version, a matching echo and >= 2 retries (checks_establish); hence any PIN-bearing message in a "
             "bring-up implies exactly those facts, as reported in that very run (pin_only_after_checks); the unlock "
             "command is sent at most once (unlock_at_most_once, by counting over the monadic structure); serving "
-            "starts only from signer mode with a supported signer version (served_only_if); the version relation is "
+            "starts only from signer mode with a supported signer version (served_only_if); conversely a device that "
+            "answers as an onboarded one in signer mode with a supported signer version and well-formed parameters "
+            "is served (serves_from_signer, any platform), and so is one in bootloader mode with a supported UI, a "
+            "correct echo, enough retries and an accepted PIN of any length that needs no change and lands in such "
+            "a signer after the reconnection, whatever became of the exit command (serves_after_unlock, Ledger / "
+            "TCP platforms; Proofs/BringUpServe.lean evaluates the bring-up on the symbolic answers); the version relation is "
             "characterised for all naturals and equals the property's; constants 5.4.1 / two retries as specified. "
             "The model (initialize_device, _handle_bootloader, PIN object, three platforms, TCPServer.run's "
             "exception map) is tied to the real TCPServer.run by correspondence; the oracle Spec.C09.c09 checks on "
             "the implementation's trace: unlock at most once, PIN only after establishing answers, served exactly "
             "when the simulated device's actual state makes it safe (ground truth), over the full state product.",
-            "'served whenever the state is safe' (the converse direction) is decided by the exhaustive grid "
-            "(correspondence + oracle), not by a theorem"),
+            "the converse direction on the SGX platform, and 'stops without serving in every other case' beyond "
+            "served_only_if, are decided by the exhaustive grid (correspondence + oracle), not by a theorem"),
     "C10": ("Lean theorems about an explicit machine over (PIN file, device PIN, default) with faults and crash "
             "points at every step boundary of the change protocol: the file changes only after the device's ack "
             "and then holds that PIN; refused/failed/aborted changes leave everything untouched; the manager "
